@@ -260,24 +260,13 @@ def skeleton(ctx, rule, method, expr=True, term=True, polynom=True, obj=True, al
 
 
 # =====================================================================================
-# Evaluated skeleton (sa.symex).  The clauses above decided on what the container
-# methods *compute*: the methods are evaluated abstractly on small abstract containers
-# (an Expr state with concrete assumption sets and a symbolic content, a Term with n
-# abstract objects, a Polynom with n abstract terms and a symbolic exponent).  Calls of
-# the next lower container level are recorded as ``mc`` terms
-#     T("mc", level, method, ident, ((param, value), ...), snapshot)
-# with all arguments bound to the parameter names of the called method (keyword versus
-# positional spelling, local names, comprehension versus loop, temporaries and helper
-# functions disappear) and with a snapshot of the assumptions the owning expression
-# has *at the time of the call*.  ``Add``/``Mul``/``Pow`` are interpreted as sum, product
-# and power of terms, so ``Add(*[...])`` and an accumulation loop give the same value.
+# Evaluated containers (sa.symex): shared modelling helpers
 # =====================================================================================
 
 from ..symex import Symex, Obj, ClassRef, _freeze          # noqa: E402
 from ..terms import T, sym, t_add, t_mul, t_pow, canon, show, args_of, is_num  # noqa: E402
 
 EC = "expr_container"
-FOCK_ERI = ("fock", "eri")
 
 
 def tensor_names_obj(model):
@@ -288,190 +277,14 @@ def tensor_names_obj(model):
         if isinstance(st, ast.AnnAssign) and isinstance(st.target, ast.Name) and isinstance(st.value, ast.Constant) \
                 and isinstance(st.value.value, str):
             o.attrs[st.target.id] = st.value.value
-    for need in FOCK_ERI + ("gs_amplitude",):
+    for need in ("fock", "eri", "gs_amplitude"):
         if need not in o.attrs:
             raise AnalysisError(f"TensorNames: no default for `{need}`")
     return o
 
 
-def complete_sum(e, n):
-    """(method, content, args, snapshot) if ``e`` is the sum of one recorded Term method over all ``n`` terms of one
-    content, else None."""
-    ts = list(e.args) if isinstance(e, T) and e.op == "add" else [e]
-    if len(ts) != n or not all(isinstance(x, T) and x.op == "mc" and x.args[0] == "Term" for x in ts):
-        return None
-    first = ts[0].args
-    if any(not (isinstance(x.args[2], tuple) and len(x.args[2]) == 2) for x in ts):
-        return None
-    if any(x.args[1] != first[1] or x.args[2][1] != first[2][1] or x.args[3:] != first[3:] for x in ts):
-        return None
-    if sorted(x.args[2][0] for x in ts) != list(range(n)):
-        return None
-    return first[1], first[2][1], first[3], first[4]
-
-
-def _snap_within(inner, outer):
-    if inner is None or outer is None or [k for k, _ in inner] != [k for k, _ in outer]:
-        return False
-    return all(set(a) <= set(b) if isinstance(a, tuple) and isinstance(b, tuple) else a == b
-               for (_, a), (_, b) in zip(inner, outer))
-
-
-def normalise_content(e, n):
-    """Law used when contents are compared: applying the declared bra-ket symmetry with the names S to the result of
-    applying it with names S0, S0 a subset of S, is the same as applying it with S directly (a tensor that already carries
-    its symmetry is left alone).  In particular re-applying an unchanged declaration changes nothing."""
-    r = complete_sum(e, n)
-    if r is None:
-        return e
-    method, e0, args, snap = r
-    e0 = normalise_content(e0, n)
-    if method == "_apply_tensor_braket_sym":
-        r0 = complete_sum(e0, n)
-        if r0 is not None and r0[0] == method and r0[2] == args and _snap_within(r0[3], snap):
-            e0 = r0[1]
-    return t_add(*[T("mc", "Term", method, (k, e0), args, snap) for k in range(n)])
-
-
-class ExprState:
-    """The state of an Expr instance: content and assumptions."""
-    FIELDS = ("_expr", "_real", "_sym_tensors", "_antisym_tensors", "_target_idx")
-
-    def __init__(self, expr=None, real=False, sym_tensors=(), antisym_tensors=(), target=None):
-        self.expr = sym("E") if expr is None else expr
-        self.real = real
-        self.sym = set(sym_tensors)
-        self.anti = set(antisym_tensors)
-        self.target = target
-
-    def copy(self):
-        return ExprState(self.expr, self.real, self.sym, self.anti, self.target)
-
-    def obj(self, name="self"):
-        return Obj(f"{EC}:Expr", name, _expr=self.expr, _real=self.real, _sym_tensors=set(self.sym),
-                   _antisym_tensors=set(self.anti), _target_idx=self.target)
-
-    @staticmethod
-    def of(o):
-        a = o.attrs
-        missing = [f for f in ExprState.FIELDS if f not in a]
-        if missing:
-            return None
-        return ExprState(a["_expr"], a["_real"], _as_set(a["_sym_tensors"]), _as_set(a["_antisym_tensors"]), a["_target_idx"])
-
-    def snap(self, method=None):
-        return snapshot(self.real, self.sym, self.anti, method)
-
-    def same(self, other, n=None):
-        return self.diff(other, n) == []
-
-    def diff(self, other, n=None):
-        out = []
-        a, b = (self.expr, other.expr) if n is None else (normalise_content(_freeze(self.expr), n),
-                                                            normalise_content(_freeze(other.expr), n))
-        if repr(canon(a)) != repr(canon(b)):
-            out.append("content")
-        if self.real is not other.real:
-            out.append("real")
-        if self.sym != other.sym:
-            out.append("sym_tensors")
-        if self.anti != other.anti:
-            out.append("antisym_tensors")
-        if self.target != other.target:
-            out.append("target_idx")
-        return out
-
-    def text(self):
-        return (f"real={self.real} sym_tensors={sorted(self.sym)} antisym_tensors={sorted(self.anti)} "
-                f"content={show(self.expr)[:400]}")
-
-
-def _as_set(v):
-    if isinstance(v, (set, frozenset, list, tuple)):
-        return set(v)
-    return {("?", repr(v))}
-
-
-# Which assumptions of the owning expression the *raw* value (return_sympy=True) of a lower-level method depends on.
-# Recorded calls carry exactly these (so that e.g. setting the real flag before or after renaming amplitudes makes no
-# difference, while declaring a symmetric name after applying the symmetry does).  Rules that rely on an entry verify it
-# by differential evaluation (``depends_only_on``).  Methods not listed depend on everything.
-ALL_DEPS = ("real", "sym_tensors", "antisym_tensors")
-DEPENDS = {"_apply_tensor_braket_sym": ("sym_tensors", "antisym_tensors"), "make_real": (), "rename_tensor": ()}
-
-
-def snapshot(real, sym_tensors, antisym_tensors, method=None):
-    full = {"real": "real" if real is True else "complex" if real is False else show(real),
-            "sym_tensors": tuple(sorted(sym_tensors)), "antisym_tensors": tuple(sorted(antisym_tensors))}
-    return tuple((k, full[k]) for k in DEPENDS.get(method, ALL_DEPS))
-
-
-def snapshot_of(owner, method=None):
-    """Assumptions of the owning Expr object at this moment (those the raw value of ``method`` depends on)."""
-    if owner is None:
-        return None
-    a = owner.attrs
-    try:
-        return snapshot(a.get("_real"), _as_set(a.get("_sym_tensors", ())), _as_set(a.get("_antisym_tensors", ())), method)
-    except TypeError:
-        return ("?",)
-
-
-def mc(level, method, ident, args, snap):
-    """The recorded call ``<level object ident>.method(**args)`` under the assumptions ``snap``."""
-    return T("mc", level, method, ident, tuple(sorted((k, _freeze(v)) for k, v in args.items())), snap)
-
-
-def _method_names(model, cls):
-    out = []
-    for st in model.cls(f"{EC}:{cls}").body:
-        if isinstance(st, ast.FunctionDef):
-            decos = [U(d).split(".")[-1].split("(")[0] for d in st.decorator_list]
-            if not any(d in ("property", "cached_property") or d.endswith("setter") for d in decos):
-                out.append(st.name)
-    return out
-
-
-def child(sx, level, ident, owner, label):
-    """Abstract container of the next lower level; every method call on it is recorded as an ``mc`` term."""
-    model = sx.model
-    o = Obj(None, label)
-    for m in _method_names(model, level):
-        if m.startswith("__"):
-            continue
-        fn = model.fn(f"{EC}:{level}.{m}")
-
-        def rec(sx_, a, kw, m=m, fn=fn):
-            b = sx_.bind(fn, list(a), dict(kw), True, True, True)
-            return mc(level, m, ident, b, snapshot_of(owner, m))
-        o.attrs[m] = rec
-    return o
-
-
-def bound_args(sx, level, method, given):
-    """``given`` bound like a recorded call of ``level.method`` (defaults filled in)."""
-    fn = sx.model.fn(f"{EC}:{level}.{method}")
-    return sx.bind(fn, [], dict(given), True, True, True)
-
-
-def forwarded(sx, level, method, outer_args):
-    """Arguments the inner call has to receive: every argument of the outer call the inner method also takes, and
-    ``return_sympy=True`` (the raw sympy object is combined, not a wrapped one)."""
-    fn = sx.model.fn(f"{EC}:{level}.{method}")
-    params = _params(fn)
-    given = {k: v for k, v in outer_args.items() if k in params and k != "return_sympy"}
-    if "return_sympy" in params:
-        given["return_sympy"] = True
-    return bound_args(sx, level, method, given)
-
-
-def children_of_expr(sx, owner, n):
-    """The terms of the *current* content of ``owner`` (an Expr object)."""
-    e = owner.attrs.get("_expr")
-    return tuple(child(sx, "Term", (k, _freeze(e)), owner, f"term{k}<{show(e)[:60]}>") for k in range(n))
-
-
 def _arith_hooks():
+    """sympy's Add / Mul / Pow as sum, product and power of terms."""
     def add(sx, a, kw):
         return t_add(*[_freeze(x) for x in a]) if not kw else NotImplemented
 
@@ -483,7 +296,7 @@ def _arith_hooks():
     return {"Add": add, "Mul": mul, "Pow": pow_}
 
 
-S_OBJ = Obj(None, "S", Zero=0, One=1, NegativeOne=-1)
+S_OBJ = Obj(None, "S", Zero=0, One=1, NegativeOne=-1)      # sympy's singletons as integers
 
 
 def type_hook(sx, a, kw):
@@ -493,206 +306,302 @@ def type_hook(sx, a, kw):
     return NotImplemented
 
 
-def container_sx(ctx, what, n_terms=2, hooks=None, **kw):
-    """Evaluator for container methods: everything of the library is evaluated through except what ``hooks`` model
-    (the sympy constructors as arithmetic, the singleton of tensor names, the sympy singletons as integers)."""
-    hk = _arith_hooks()
-    hk["tensor_names"] = tensor_names_obj(ctx.model)
-    hk["S"] = S_OBJ
-    hk["sympify"] = lambda sx, a, kw_: a[0]
-    hk["type"] = type_hook
-    hk["Expr.terms"] = lambda sx, a, kw_: children_of_expr(sx, a[0], n_terms)
-    hk.update(hooks or {})
-    kw.setdefault("isinstance_hook", lambda sx, obj, cname: False)
-    kw.setdefault("attr_hook", _number_attr_hook)
-    return Symex(ctx.model, inline=lambda q: True, hooks=hk, what=what, **kw)
+# =====================================================================================
+# Concrete containers (sa.symex): the library is evaluated *through all container levels*
+# on a small concrete model of a sympy expression, entered only through public methods.
+#
+# A sympy content is a term: ``add`` / ``mul`` / ``pow`` over leaves and numbers.  A leaf is an
+# abstract record of a library class (a tensor built by evaluating the library's own
+# constructor, a delta) embedded by its unique name; the model keeps the table name -> record.
+# Container objects (Expr, Term, Obj, Polynom) are records created by evaluating the
+# library's ``__new__`` / ``__init__``; ``len()``, ``__getattr__`` delegation and ``type()``
+# follow the class definitions.  Nothing below names a private function of the library.
+# =====================================================================================
+
+import itertools as _it                                   # noqa: E402
+from ..symex import Ext, Func, Raised                     # noqa: E402
+
+_serial = _it.count(1)
 
 
-def run_method(sx, ref, make):
-    """Outcomes of ``ref`` paired with the ``self`` object of the respective path (``make()`` -> (self, kwargs))."""
-    made = []
+class Concrete:
+    """Concrete sympy model + evaluator for the container and tensor classes."""
 
-    def args():
-        me, kw = make()
-        made.append(me)
-        return dict(self=me, **kw)
-    outs = sx.run(ref, args)
-    if len(outs) != len(made):
-        raise AnalysisError(f"SX({sx.what}): {len(made)} evaluations, {len(outs)} outcomes")
-    return list(zip(outs, made))
+    MODULES = (EC, "sympy_objects")
 
+    def __init__(self, ctx, what, hooks=None, sort_fermions=None, **kw):
+        self.ctx, self.model = ctx, ctx.model
+        self.leaves = {}
+        self.symbols = {}
+        self.count = {}
+        hk = _arith_hooks()
+        hk["Add"] = lambda sx, a, kw_: self.add(*a) if not kw_ else NotImplemented
+        hk.update({"tensor_names": tensor_names_obj(ctx.model), "S": S_OBJ, "sympify": self._sympify, "Symbol": self._sympify,
+                   "Tuple": lambda sx, a, kw_: tuple(a) if not kw_ else NotImplemented, "super": self._super,
+                   "len": self._len, "type": self._type})
+        for base in ("object", "Expr", "Basic", "Function", "AtomicExpr"):      # allocation by an external base class
+            hk[f"{base}.__new__"] = self._alloc_hook
+        if sort_fermions is not None:
+            hk["_sort_anticommuting_fermions"] = sort_fermions
+        for mod in self.MODULES:
+            for q in ctx.model.module(mod).classes:
+                if "." not in q:
+                    hk[f"{mod}:{q}"] = (lambda sx, a, kw_, mod=mod, q=q: self.instantiate(ClassRef(ctx.model.module(mod), q), a, kw_))
+        # functools.cached_property: computed once per object (the value is kept on the record)
+        for mod in self.MODULES:
+            m = ctx.model.module(mod)
+            for q, fn in m.functions.items():
+                if q.count(".") == 1 and any(U(d).split(".")[-1] == "cached_property" for d in fn.decorator_list):
+                    hk[q] = (lambda sx, a, kw_, fn=fn: self._cached(fn, a[0]))
+        hk.update(hooks or {})
+        self.sx = Symex(ctx.model, inline=lambda q: True, hooks=hk, what=what, attr_hook=self._attr,
+                        isinstance_hook=self._isinstance, **kw)
 
-def decided(o, atom):
-    for a, pol in o.path:
-        if a == atom:
-            return pol
-    return None
+        self.sx.compare_hook = self._compare
 
+    def _compare(self, sx, opname, a, b, node):
+        """Leaves and contents are values that exist (never None) and compare structurally like sympy objects."""
+        if opname not in ("is", "is not", "==", "!="):
+            return NotImplemented
 
-def root_content(e):
-    """The content a sum of recorded Term calls was derived from (followed down to the original content)."""
-    while True:
-        ts = list(e.args) if isinstance(e, T) and e.op == "add" else [e]
-        if not all(isinstance(x, T) and x.op == "mc" and x.args[0] == "Term" and isinstance(x.args[2], tuple)
-                   and len(x.args[2]) == 2 for x in ts):
-            return e
-        roots = {x.args[2][1] for x in ts}
-        if len(roots) != 1:
-            return e
-        e = roots.pop()
+        def known(x):
+            return (isinstance(x, Obj) and x.name in self.leaves) or \
+                (isinstance(x, T) and (x.op in ("add", "mul", "pow") or self.resolve(x) is not x))
+        if (a is None and known(b)) or (b is None and known(a)):
+            return opname in ("is not", "!=")
+        if known(a) and known(b):
+            return (self.value(a) == self.value(b)) == (opname in ("is", "=="))
+        return NotImplemented
 
+    def _cached(self, fn, obj):
+        v = self.sx._invoke(Func(fn, [], fn._module, fn._qual, bound=obj), [], {}, None)
+        if isinstance(obj, Obj):
+            obj.attrs[fn.name] = v
+        return v
 
-def _number_attr_hook(sx, obj, attr, node):
-    """Whether a content is a plain number is a property of the content it was derived from (the image of a number under
-    the container methods is that number), so it is decided once per path."""
-    if attr == "is_number" and isinstance(obj, T):
-        r = root_content(obj)
-        if r is not obj and r != obj:
-            return sx.getattr(r, attr, node)
-    return NotImplemented
+    # ------------------------------------------------------------------ records
+    def reset(self):
+        self.leaves.clear()
+        self.symbols.clear()
+        self.count.clear()
 
+    def alloc(self, cls, args=(), label=None):
+        """A fresh record of the library class ``cls`` (ClassRef or an abstract class record)."""
+        if isinstance(cls, Obj):
+            cref = cls.attrs.get("$class")
+        else:
+            cref = cls
+        if not isinstance(cref, ClassRef):
+            raise AnalysisError(f"SX({self.sx.what}): allocation of an unknown class {cls!r}")
+        ref = f"{cref.module.name}:{cref.qual}"
+        o = Obj(ref, f"<{label or cref.short}#{next(_serial)}>")
+        o.attrs["__class__"] = cref
+        if cref.module.name == "sympy_objects":      # a sympy object: its constructor arguments are its ``args``
+            o.attrs["args"] = tuple(args)
+            self.leaves[o.name] = o
+        return o
 
-def is_number(o, e):
-    """Did the path decide that the content ``e`` is a plain number?"""
-    return decided(o, T("attr", root_content(_freeze(e)), "is_number")) is True
+    def _alloc_hook(self, sx, a, kw):
+        if a and isinstance(a[0], Obj) and a[0].name == "super":
+            a = a[1:]
+        if not a or kw:
+            return NotImplemented
+        return self.alloc(a[0], a[1:])
 
+    def _super(self, sx, a, kw):
+        o = Obj(None, "super")
+        o.attrs["__new__"] = self._alloc_hook
+        return o
 
-def lifted(sx, level, method, idents, inner, snap):
-    return [mc(level, method, i, inner, snap) for i in idents]
+    def _sympify(self, sx, a, kw):
+        if len(a) != 1 or kw:
+            return NotImplemented
+        v = a[0]
+        if isinstance(v, str):
+            if v not in self.symbols:
+                s = Obj(None, f"Symbol({v})")
+                s.attrs.update(name=v, _classes=("Symbol",), is_number=False)
+                self.symbols[v] = s
+            return self.symbols[v]
+        return v
 
+    def instantiate(self, cref, args, kw):
+        """``Class(*args)`` as python does it: ``__new__`` of the library evaluated, then ``__init__`` on the result if
+        it is an instance of the class."""
+        sx = self.sx
+        ref = f"{cref.module.name}:{cref.qual}"
+        self.count[cref.short] = self.count.get(cref.short, 0) + 1
+        new = sx.find_method(ref, "__new__")
+        if new is not None:
+            fn = new[0]
+            clsrec = Obj(ref, cref.short)          # the class object: classmethods called on it are bound to it
+            clsrec.attrs["$class"] = cref
+            r = sx._invoke(Func(fn, [], fn._module, fn._qual), [clsrec] + list(args), dict(kw), None)
+        else:
+            r = self.alloc(cref, args)
+        if isinstance(r, Obj) and r.cls and (r.cls == ref or cref.short in sx._bases(r.cls)):
+            init = sx.find_method(r.cls, "__init__")
+            if init is not None:
+                fn = init[0]
+                sx._invoke(Func(fn, [], fn._module, fn._qual, bound=r), list(args), dict(kw), None)
+        return r
 
-def same_value(a, b):
-    return repr(canon(_freeze(a))) == repr(canon(_freeze(b)))
+    def construct(self, cls_name, *args, **kw):
+        """The library's own constructor (to be called while an evaluation is running)."""
+        mod = next(m for m in self.MODULES if cls_name in self.model.module(m).classes)
+        return self.instantiate(ClassRef(self.model.module(mod), cls_name), list(args), kw)
 
+    # ------------------------------------------------------------------ python protocol
+    def _len(self, sx, a, kw):
+        if len(a) == 1 and isinstance(a[0], Obj) and a[0].cls:
+            m = sx.find_method(a[0].cls, "__len__")
+            if m is not None:
+                fn = m[0]
+                return sx.call_value(Func(fn, [], fn._module, fn._qual, bound=a[0]), [], {}, None)
+        if len(a) == 1 and isinstance(a[0], T) and a[0].op in ("add", "mul", "pow"):
+            return len(a[0].args)
+        return NotImplemented
 
-def wrapper_ok(v, content, state, real=None):
-    """``v`` is Expr(content) carrying the assumptions of ``state`` (``real`` overrides the flag)."""
-    if not (isinstance(v, T) and v.op == "call" and v.args[0] == "Expr"):
-        return False, f"not wrapped in Expr: {show(v)[:200]}"
-    a = args_of(v)
-    if not same_value(a.get("e", a.get(0)), content):
-        return False, f"wrapped content is {show(a.get('e', a.get(0)))[:300]}, expected {show(content)[:300]}"
-    want_real = state.real if real is None else real
-    if a.get("real", False) is not want_real:
-        return False, f"wrapped with real={show(a.get('real'))}, expected {want_real}"
-    for k, want in (("sym_tensors", state.sym), ("antisym_tensors", state.anti)):
-        got = a.get(k)
-        got = set() if got is None else _as_set(got)
-        if got != want:
-            return False, f"wrapped with {k}={sorted(map(str, got))}, expected {sorted(want)}"
-    if a.get("target_idx") != _freeze(state.target):
-        return False, f"wrapped with target_idx={show(a.get('target_idx'))}"
-    return True, ""
+    def _type(self, sx, a, kw):
+        if len(a) != 1:
+            return NotImplemented
+        v = self.resolve(a[0])
+        if isinstance(v, Obj) and "__class__" in v.attrs:
+            return v.attrs["__class__"]
+        if isinstance(v, T) and v.op in ("add", "mul", "pow"):
+            return Ext({"add": "Add", "mul": "Mul", "pow": "Pow"}[v.op])
+        if is_num(v):
+            return Ext("Integer")
+        return NotImplemented
 
+    def resolve(self, v):
+        """The record a leaf term stands for."""
+        if isinstance(v, T) and v.op == "sym" and v.args[0] in self.leaves:
+            return self.leaves[v.args[0]]
+        return v
 
-WRAP_STATES = (dict(real=False, sym_tensors=("x",), antisym_tensors=("y",), target=None),
-               dict(real=True, sym_tensors=("V", "f", "x"), antisym_tensors=(), target=sym("TARGET")))
+    def _attr(self, sx, obj, attr, node):
+        if isinstance(obj, T):
+            r = self.resolve(obj)
+            if r is not obj:
+                return sx.getattr(r, attr, node)
+            if obj.op in ("add", "mul", "pow"):
+                if attr == "args":
+                    return tuple(self.resolve(x) for x in obj.args)
+                if attr == "is_number":
+                    return False
+                if attr == "func":
+                    return self._type(sx, [obj], {})
+            return NotImplemented
+        if isinstance(obj, Obj) and obj.cls:
+            m = sx.find_method(obj.cls, "__getattr__")
+            if m is not None and attr not in ("__class__",) and not (attr.startswith("__") and attr.endswith("__")):
+                fn = m[0]
+                return sx.call_value(Func(fn, [], fn._module, fn._qual, bound=obj), [attr], {}, node)
+            if attr == "is_number" and obj.name in self.leaves:
+                return False
+        return NotImplemented
 
+    def _isinstance(self, sx, obj, cname):
+        if isinstance(obj, T):
+            r = self.resolve(obj)
+            if r is not obj:
+                return cname == r.cls.split(":")[-1] or cname in sx._bases(r.cls) if r.cls else cname in r.attrs.get("_classes", ())
+            if obj.op in ("add", "mul", "pow"):
+                return cname in {"add": ("Add", "Expr", "Basic"), "mul": ("Mul", "Expr", "Basic"), "pow": ("Pow", "Expr", "Basic")}[obj.op]
+        return False
 
-def sx_term_level(ctx, rule, method, args=None, real_after=None, n=3):
-    """Term.method = product of Obj.method over *all* objects (arguments forwarded, raw values combined), wrapped in an
-    Expr with the assumptions of the owning expression unless return_sympy."""
-    args = dict(args or {})
-    fn = ctx.model.fn(f"{EC}:Term.{method}")
-    sx = container_sx(ctx, f"Term.{method}")
-    inner = forwarded(sx, "Obj", method, args)
-    for si, st in enumerate(WRAP_STATES):
-        state = ExprState(**st)
-        for rs in (True, False):
-            def make():
-                owner = state.obj("expr")
-                me = Obj(f"{EC}:Term", "self", _expr=owner, _pos=0, _sympy=sym("TERM"))
-                me.attrs["objects"] = tuple(child(sx, "Obj", k, owner, f"obj{k}") for k in range(n))
-                return me, dict(args, return_sympy=rs)
-            want = t_mul(*lifted(sx, "Obj", method, range(n), inner, state.snap(method)))
-            for o, me in run_method(sx, fn, make):
-                key = f"Term.{method} {'raw' if rs else 'wrapped'} {si}"
-                if o.kind != "return":
-                    ctx.bad(rule, fn, f"Term.{method}(return_sympy={rs}) raises {o.exc}", key=key)
-                    continue
-                if rs:
-                    ok = same_value(o.value, want)
-                    why = f"returns {show(o.value)[:300]}"
-                else:
-                    ok, why = wrapper_ok(o.value, want, state, real_after)
-                ctx.check(rule, fn, ok, f"Term.{method}: product of {method} over all {n} objects"
-                          + ("" if rs else ", wrapped with the assumptions of the expression"),
-                          f"Term.{method}(return_sympy={rs}) is not the product of o.{method}({_show_args(inner)}) over all "
-                          f"objects{'' if rs else ' wrapped with the assumptions'}: {why}", key=key)
+    # ------------------------------------------------------------------ values
+    def leaf_key(self, r):
+        """Structural identity of a leaf record: class and constructor arguments."""
+        r = self.resolve(r)
+        if not isinstance(r, Obj):
+            return r
+        args = r.attrs.get("args", ())
 
+        def k(x):
+            if isinstance(x, (tuple, list)):
+                return tuple(k(y) for y in x)
+            if isinstance(x, Obj):
+                return ("obj", x.attrs.get("name", x.name) if x.name.startswith("Symbol(") else x.name)
+            return x
+        return T("leaf", r.cls or r.name, k(args))
 
-def sx_polynom_level(ctx, rule, method, args=None, real_after=None, n=2):
-    """Polynom.method = Pow(sum of Term.method over *all* terms, exponent of the polynom)."""
-    args = dict(args or {})
-    fn = ctx.model.fn(f"{EC}:Polynom.{method}")
-    sx = container_sx(ctx, f"Polynom.{method}")
-    inner = forwarded(sx, "Term", method, args)
-    for si, st in enumerate(WRAP_STATES):
-        state = ExprState(**st)
-        for rs in (True, False):
-            for expo in (sym("n"), 1):
-                def make():
-                    owner = state.obj("expr")
-                    base = sym("POLYBASE")
-                    me = Obj(f"{EC}:Polynom", "self", _expr=owner, _pos=0, _term=Obj(None, "term"), exponent=expo, base=base,
-                             base_and_exponent=(base, expo), sympy=t_pow(base, expo))
-                    me.attrs["terms"] = tuple(child(sx, "Term", (k, base), owner, f"term{k}") for k in range(n))
-                    return me, dict(args, return_sympy=rs)
-                want = t_pow(t_add(*lifted(sx, "Term", method, [(k, sym("POLYBASE")) for k in range(n)], inner,
-                                           state.snap(method))), expo)
-                for o, me in run_method(sx, fn, make):
-                    key = f"Polynom.{method} {'raw' if rs else 'wrapped'} {si} exponent {show(expo)}"
-                    if o.kind != "return":
-                        ctx.bad(rule, fn, f"Polynom.{method}(return_sympy={rs}) raises {o.exc}", key=key)
-                        continue
-                    if rs:
-                        ok = same_value(o.value, want)
-                        why = f"returns {show(o.value)[:300]}"
-                    else:
-                        ok, why = wrapper_ok(o.value, want, state, real_after)
-                    ctx.check(rule, fn, ok, f"Polynom.{method}: Pow(sum of {method} over all {n} terms, exponent)",
-                              f"Polynom.{method}(return_sympy={rs}) is not (sum of t.{method}({_show_args(inner)}) over all "
-                              f"terms) ** exponent: {why}", key=key)
+    def value(self, t):
+        """Canonical structural text of a content (leaves by class and arguments)."""
+        from ..terms import rebuild
+        t = _freeze(t)
 
+        def f(x):
+            if x.op == "sym" and x.args[0] in self.leaves:
+                return self.leaf_key(x)
+            return x
+        if isinstance(t, T):
+            t = rebuild(t, f)
+        return repr(canon(t))
 
-def _show_args(b):
-    return ", ".join(f"{k}={show(v)}" for k, v in b.items())
+    def show(self, t):
+        return self.value(t)[:600]
 
-
-def canonical_content(sx, state, n, base="E0"):
-    """Content of an expression that satisfies the class invariant of Expr: it is the result of applying the declared
-    symmetry of ``state`` (to some content ``base``)."""
-    inner = forwarded(sx, "Term", "_apply_tensor_braket_sym", {})
-    return t_add(*lifted(sx, "Term", "_apply_tensor_braket_sym", [(k, sym(base)) for k in range(n)], inner,
-                         state.snap("_apply_tensor_braket_sym")))
-
-
-def expr_sum(sx, method, state, inner, n):
-    """Sum of Term.method over all terms of the content of ``state`` under its assumptions."""
-    return t_add(*lifted(sx, "Term", method, [(k, _freeze(state.expr)) for k in range(n)], inner, state.snap(method)))
-
-
-def sx_expr_level(ctx, rule, method, args=None, n=2, states=None):
-    """Expr.method replaces the content by the sum of Term.method over *all* terms (arguments forwarded) and touches
-    nothing else; a content that is a plain number may be left as it is."""
-    args = dict(args or {})
-    fn = ctx.model.fn(f"{EC}:Expr.{method}")
-    sx = container_sx(ctx, f"Expr.{method}", n_terms=n)
-    inner = forwarded(sx, "Term", method, args)
-    for si, st in enumerate(states or WRAP_STATES):
-        state = ExprState(**st)
-        for o, me in run_method(sx, fn, lambda: (state.obj(), dict(args))):
-            key = f"Expr.{method} {si} {'number' if is_number(o, state.expr) else 'sum'}"
-            if o.kind != "return":
-                ctx.bad(rule, fn, f"Expr.{method} raises {o.exc}", key=key)
+    def add(self, *xs):
+        """Sum as sympy builds it: equal summands are collected into one with a numeric coefficient."""
+        t = t_add(*[_freeze(x) for x in xs])
+        if not (isinstance(t, T) and t.op == "add"):
+            return t
+        groups, order, const = {}, [], 0
+        for x in t.args:
+            if is_num(x):
+                const = const + x
                 continue
-            want = state.copy()
-            if not is_number(o, state.expr):
-                want.expr = expr_sum(sx, method, state, inner, n)
-            got = ExprState.of(me)
-            d = ["state destroyed"] if got is None else want.diff(got, n)
-            ctx.check(rule, fn, not d, f"Expr.{method}: content = sum of {method} over all {n} terms, assumptions untouched",
-                      f"Expr.{method}: {', '.join(d)} differ(s) from the sum of t.{method}({_show_args(inner)}) over all terms: "
-                      f"got {got.text() if got else '-'}; expected {want.text()}", key=key)
-            ctx.check(rule, fn, o.value is me, f"Expr.{method} returns the expression itself",
-                      f"Expr.{method} returns {show(_freeze(o.value))[:200]} instead of the modified expression", key=key + " returns")
+            c, rest = 1, x
+            if isinstance(x, T) and x.op == "mul" and is_num(x.args[0]):
+                c, rest = x.args[0], t_mul(*x.args[1:])
+            k = self.value(rest)
+            if k not in groups:
+                groups[k] = [0, rest]
+                order.append(k)
+            groups[k][0] = groups[k][0] + c
+        return t_add(const, *[t_mul(groups[k][0], groups[k][1]) for k in order if groups[k][0] != 0])
+
+    def map_leaves(self, t, fn):
+        """Content with every leaf record r replaced by fn(r) (a content); everything else rebuilt as it is."""
+        t = _freeze(t)
+        if isinstance(t, T):
+            if t.op == "sym":
+                r = self.resolve(t)
+                return _freeze(fn(r)) if r is not t else t
+            if t.op == "add":
+                return self.add(*[self.map_leaves(x, fn) for x in t.args])
+            if t.op == "mul":
+                return t_mul(*[self.map_leaves(x, fn) for x in t.args])
+            if t.op == "pow":
+                return t_pow(self.map_leaves(t.args[0], fn), self.map_leaves(t.args[1], fn))
+        return t
+
+    def run(self, build, call):
+        """One evaluation: ``build()`` creates the model (constructors may be evaluated), ``call(built)`` performs the
+        public calls; both run inside the evaluator.  Returns [(outcome, built)]."""
+        sx = self.sx
+        made = []
+
+        def body():
+            self.reset()
+            b = build()
+            made.append(b)
+            return call(b)
+        outs = sx._explore(lambda: self._enter(body))
+        if len(outs) != len(made):
+            raise AnalysisError(f"SX({sx.what}): {len(made)} evaluations, {len(outs)} outcomes")
+        return list(zip(outs, made))
+
+    def _enter(self, body):
+        sx = self.sx
+        sx.frames, sx.module = [{}], self.model.module(EC)
+        return body()
+
+    def call(self, recv, method, *args, **kw):
+        """``recv.method(*args, **kw)`` evaluated."""
+        return self.sx.call_method(recv, method, list(args), dict(kw), None)
+
+    def get(self, recv, attr):
+        return self.sx.getattr(recv, attr, None)
